@@ -703,6 +703,29 @@ public:
     case Stmt::LambdaExprClass: {
       auto *LE = cast<LambdaExpr>(S);
       emitSlot("body", LE->getBody());
+      // parameters of the call operator and whether everything is captured by reference: lets the analyses treat a call of a
+      // local lambda in statement position as the statements of its body
+      if (const CXXMethodDecl *CO = LE->getCallOperator()) {
+        key("params");
+        OS << '[';
+        for (unsigned I = 0; I < CO->getNumParams(); ++I) {
+          if (I)
+            OS << ',';
+          const ParmVarDecl *P = CO->getParamDecl(I);
+          OS << "{\"n\":";
+          jsonEscape(OS, P->getNameAsString());
+          OS << ",\"id\":" << declId(P) << ",\"t\":" << typeId(P->getType()) << '}';
+        }
+        OS << ']';
+      }
+      {
+        bool AllRef = true;
+        for (const LambdaCapture &C : LE->captures())
+          if (C.capturesVariable() && C.getCaptureKind() != LCK_ByRef)
+            AllRef = false;
+        key("capref");
+        OS << (AllRef ? 1 : 0);
+      }
       break;
     }
     case Stmt::CXXDefaultArgExprClass:
